@@ -513,6 +513,29 @@ func genFor(prop, part string, seed uint64) *Scenario {
 		pf.waitEarlyP = 40
 		pf.clientAddP = 30
 	case "C13":
+		if part == "err" {
+			// writers that keep writing across a render error: nothing is written after
+			// the failed cycle, so no Write that starts after it may report success
+			sc := genC15(seed, "filler")
+			sc.Fam = "C13/err"
+			r := common.NewRng(seed ^ 0x1313)
+			seq := 5000
+			for w := 0; w < r.Range(1, 3); w++ {
+				var ops []Op
+				for k := 0; k < r.Range(20, 60); k++ {
+					seq++
+					ops = append(ops, Op{K: "write", S: fmt.Sprintf("~e%d:%d:x~\n", w, seq)})
+					if r.Chance(1, 3) {
+						ops = append(ops, Op{K: "sleep", N: int64(r.Pick(10, 50, 200))})
+					} else {
+						ops = append(ops, Op{K: "yield", N: int64(r.Intn(3))})
+					}
+				}
+				sc.Clients = append(sc.Clients, ops)
+			}
+			stripPrioIfPop(sc)
+			return sc
+		}
 		pf.modes = []string{"auto", "auto", "manual"}
 		pf.writeP = 100
 		pf.nBars = []int{0, 1, 2, 3, 5}
